@@ -1224,6 +1224,11 @@ func (c *Conn) processHandshakePacket(pkt *dtlsflight.Packet, dtlsHandshake *han
 				return nil, err
 			}
 		}
+		if len(rawPacket)-pkt.Record.Header.Size() > math.MaxUint16 {
+			// A fragment as long as a very large MTU allows: the 16 bit
+			// record length would wrap (see processPacket).
+			return nil, dtlserrors.ErrRecordTooLong
+		}
 
 		rawPackets = append(rawPackets, rawPacket)
 	}
